@@ -369,6 +369,34 @@ func c14Run(c *vlib.Ctx, idx int) {
 			winners[src] = true
 			c.Count("keys_resolved", 1)
 			c.Count("winner_"+strings.SplitN(src, "@", 2)[0], 1)
+			if at := strings.SplitN(src, "@", 2); len(at) == 2 {
+				lvl := at[1]
+				if strings.HasPrefix(lvl, "anc") {
+					lvl = "ancestor"
+				}
+				c.Count("winner_level_"+lvl, 1)
+				// how many levels define the key in the winning kind: > 1 means a nearer definition beat a farther one
+				n := 0
+				for _, p := range tr.chain() {
+					kvs := p.Vars
+					if at[0] == "defaults" {
+						kvs = p.Defaults
+					}
+					if _, ok := kvGet(kvs, key); ok {
+						n++
+					}
+				}
+				envm := sc.EnvVars
+				if at[0] == "defaults" {
+					envm = sc.EnvDefaults
+				}
+				if _, ok := envm[key]; ok {
+					n++
+				}
+				if n > 1 {
+					c.Count("nearer_definition_beats_farther", 1)
+				}
+			}
 			if len(want) == 1 && want[0] == "" {
 				c.Count("winner_is_empty_definition", 1)
 			}
